@@ -200,6 +200,36 @@ func propC04(c *ctx) error {
 			res.violate(rc.toJ(), nt.want, J{"st": impl.St, "out": impl.text(), "err": trunc(impl.Err, 160)}, "nested range / struct items: loop variables not bound as specified")
 		}
 	}
+	// LONG collections whose loop body inserts / replaces a fragment: one rendering per item, however many items (calls from
+	// one level are not nesting)
+	for _, n := range []int{255, 256, 257, 300, 1000} {
+		if c.quick() && n == 1000 {
+			continue
+		}
+		xs := make([]int, n)
+		var want strings.Builder
+		want.WriteString("<ul>")
+		for k := range xs {
+			xs[k] = k
+			want.WriteString(fmt.Sprintf("<li><b><i>%d</i></b>%d</li>", k, k+1))
+		}
+		want.WriteString("</ul>")
+		tpl := `<ul><li :range="i, x : big"><b :insert="cell">o</b><u :replace="idx">o</u></li></ul><template :define="cell"><i :text="${x}">o</i></template><template :define="idx">${never}<s :remove="tag" :text="${i}">o</s></template>`
+		rc := &renderCase{Files: [][2]string{{"t", tpl}}, Tpl: "t", Data: vMap(kv{"big", vIntSlice(xs...)}).j}
+		impl, _, err := compareRender(c, rc, n <= 300)
+		if err != nil {
+			return err
+		}
+		res.eval(fmt.Sprint("long-range-insert|", n), true, J{"items": n})
+		res.S3Checked++
+		res.count("long_ranges_with_inserts")
+		wantS := strings.Replace(want.String(), "", "", 0)
+		got := strings.ReplaceAll(impl.text(), "${never}", "")
+		if impl.St != "ok" || got != wantS {
+			res.violate(J{"tpl": tpl, "items": n}, trunc(wantS, 200), J{"st": impl.St, "err": trunc(impl.Err, 200), "out": trunc(impl.text(), 200)},
+				"a loop over many items whose body inserts a fragment is not rendered once per item (a per-call count mistaken for nesting depth?)")
+		}
+	}
 	// nested loops whose INNER collection is empty for some outer items and non-empty for others, in every order (inner
 	// lengths 0..2 for three outer items; slices, strings and single-entry maps inside): the inner element is rendered once
 	// per inner item of THIS outer item, with its loop variables bound, whatever the previous outer item's collection was
